@@ -150,3 +150,45 @@ def sens_reach_from_edge(cfg, du, edge, blocked_nodes=(), blocked_edges=()):
     src, lab, dst = edge
     st = refine_on_edge(cfg.body, du, step_block(cfg.body, {}, src), src, lab, dst)
     return sens_reach(cfg, du, [(dst, st)], blocked_nodes, blocked_edges)
+
+
+def state_graph(cfg, du, limit=60000):
+    """explicit product graph from the entry: nodes (block, store), edges carry the CFG edge they take. Returns (nodes, adj) with
+    nodes[i] = block index and adj[i] = [(src_block, label, dst_block, j)], or None when the product is too large."""
+    body = cfg.body
+    ids = {}; nodes = []; adj = []
+    def nid(b, st):
+        k = (b, tuple(sorted(st.items())))
+        if k not in ids:
+            ids[k] = len(nodes); nodes.append(b); adj.append(None)
+            work.append((ids[k], b, st))
+        return ids[k]
+    work = []
+    nid(0, {})
+    while work:
+        i, b, st = work.pop()
+        if len(nodes) > limit: return None
+        st1 = step_block(body, st, b)
+        t = body.blocks[b].term
+        succs = feasible_succs(st1, t, cfg.succ[b])
+        st2 = step_term(st1, t)
+        out = []
+        for lab, d in succs:
+            s3 = st2 if lab != "unwind" else st1
+            if t.kind == "switch": s3 = refine_on_edge(body, du, s3, b, lab, d)
+            out.append((b, lab, d, nid(d, s3)))
+        adj[i] = out
+    return nodes, adj
+
+
+def graph_reach(graph, blocked_nodes=(), blocked_edges=()):
+    nodes, adj = graph
+    bn = set(blocked_nodes); be = set(blocked_edges)
+    if nodes[0] in bn: return set()
+    seen = {0}; out = {nodes[0]}; work = [0]
+    while work:
+        i = work.pop()
+        for (b, lab, d, j) in adj[i] or ():
+            if (b, d) in be or (b, lab, d) in be or d in bn or j in seen: continue
+            seen.add(j); out.add(d); work.append(j)
+    return out
